@@ -367,3 +367,31 @@ def self_attr_assignments(model, cls_qual, attr, include_subclasses=True):
                                     tt.value.id == "self":
                                 out.append((fi, n, n.value))
     return out
+
+
+def inline_expr(rd, expr, nid, depth=8):
+    """Copy of `expr` in which every local name with exactly one reaching
+    plain assignment is replaced by the assigned expression (recursively)."""
+    import copy
+
+    def rec(e, at, d, stack):
+        if isinstance(e, ast.Name) and isinstance(e.ctx, ast.Load) and d > 0:
+            defs = rd.reaching(e.id, at)
+            if len(defs) == 1 and defs[0].kind == "assign" and \
+                    defs[0].value is not None and id(defs[0]) not in stack:
+                return rec(defs[0].value, defs[0].node, d - 1,
+                           stack | {id(defs[0])})
+            return copy.copy(e)
+        if isinstance(e, (ast.Lambda, ast.ListComp, ast.SetComp, ast.DictComp,
+                          ast.GeneratorExp)):
+            return copy.deepcopy(e)
+        new = copy.copy(e)
+        for field, val in ast.iter_fields(e):
+            if isinstance(val, ast.AST):
+                setattr(new, field, rec(val, at, d, stack))
+            elif isinstance(val, list):
+                setattr(new, field, [rec(x, at, d, stack)
+                                     if isinstance(x, ast.AST) else x
+                                     for x in val])
+        return new
+    return rec(expr, nid, depth, frozenset())
